@@ -321,6 +321,29 @@ def hook(ex, func, argv, frame):
         if a[1] != 10:
             raise Unsupported('from_str_radix with radix %r' % (a[1],))
         return True, parse_uint(ex, deref(a[0]), mm.group(1))
+    # ---- Utf8Error accessors (the error value remembers the slice that was validated)
+    if g in ('std::str::Utf8Error::valid_up_to', 'core::str::Utf8Error::valid_up_to', 'std::str::Utf8Error::error_len', 'core::str::Utf8Error::error_len'):
+        e_ = deref(a[0])
+        sl = getattr(e_, 's', None)
+        c = ctx_of(ex, sl) if sl is not None else None
+        if c is None or not (is_c(sl.start) and sl.start == 0):
+            raise Unsupported('Utf8Error of something other than a prefix of the input')
+        okp, rem = c.utf8fns()
+        n = sl.end
+        if g.endswith('error_len'):
+            # None <=> the input ended inside a character (no invalid byte was seen)
+            if ex.branch(okp(Z(n))):
+                return True, NoneV()
+            k = ex.fresh('u8elen')
+            ex.assume(z3.And(k >= 1, k <= 3))
+            return True, Some(k)
+        # valid_up_to: the longest prefix that is complete, valid UTF-8
+        j = ex.fresh('u8upto')
+        cs = [j >= 0, j <= Z(n), okp(j), rem(j) == 0]
+        for k in range(c.lmax + 2):
+            cs.append(z3.Or(z3.Not(j < k), z3.Not(Z(n) >= k), z3.Not(z3.And(okp(k), rem(k) == 0))))
+        ex.assume(z3.And(cs))
+        return True, j
     # ---- direct FromStr calls (the same functions `str::parse` resolves to)
     mm = re.match(r'^<(u8|u16|u32|u64|usize|u128) as std::str::FromStr>::from_str$', g)
     if mm:
@@ -343,6 +366,37 @@ def hook(ex, func, argv, frame):
                 return True, and_(gt(s.len(), 0), fn(byte_at(s, 0)), lt(byte_at(s, 0), 128))
             last = s.buf.at(sub(s.end, 1))
             return True, and_(gt(s.len(), 0), fn(last), lt(last, 128))
+    mset = re.search(r"::<&?\[char(; \d+)?\]>$", f)
+    if mset and g in ('core::str::<impl str>::trim_start_matches', 'core::str::<impl str>::trim_end_matches', 'core::str::<impl str>::find',
+                      'core::str::<impl str>::contains', 'core::str::<impl str>::split', 'core::str::<impl str>::starts_with', 'core::str::<impl str>::ends_with'):
+        import models_v2
+        pat = models_v2.as_slice(deref(a[1]) if isinstance(a[1], Ref) else a[1])
+        items = list(pat.items) if isinstance(pat, (Tuple, ArrSlice)) else None
+        if items is None or not all(isinstance(x, int) and x < 128 for x in items):
+            raise Unsupported('char-set pattern with symbolic / non-ASCII members')
+        s = deref(a[0])
+        c = ctx_of(ex, s)
+        inset = lambda b, items=items: z3.Or([b == x for x in items]) if items else z3.BoolVal(False)
+        key = 'set' + '_'.join(str(x) for x in sorted(items))
+        if g.endswith('starts_with'):
+            return True, and_(gt(s.len(), 0), inset(byte_at(s, 0)))
+        if g.endswith('ends_with'):
+            return True, and_(gt(s.len(), 0), inset(s.buf.at(sub(s.end, 1))))
+        if c is None:
+            raise Unsupported('char-set pattern on a non-input buffer')
+        if g.endswith('::split'):
+            return True, Opaque('splitn', s=s, pos=s.start, count=10 ** 9, finished=False, pred=inset, key=key)
+        if g.endswith('::find') or g.endswith('::contains'):
+            found, j = find_first(ex, s, s.start, key, inset)
+            if g.endswith('contains'):
+                return True, found
+            return True, (Some(sub(j, s.start)) if found else NoneV())
+        j = ex.fresh('trs')
+        if 'trim_start' in g:
+            ex.assume(z3.And(Z(s.start) <= j, j <= Z(s.end), c.forall_range(s.start, j, key, inset), z3.Or(j == Z(s.end), z3.Not(inset(c.S(j))))))
+            return True, Str(s.buf, j, s.end, s.is_str)
+        ex.assume(z3.And(Z(s.start) <= j, j <= Z(s.end), c.forall_range(j, s.end, key, inset), z3.Or(j == Z(s.start), z3.Not(inset(c.S(j - 1))))))
+        return True, Str(s.buf, s.start, j, s.is_str)
     if g in ('core::str::<impl str>::trim_start_matches', 'core::str::<impl str>::trim_end_matches') and (f.endswith('::<&str>') or f.endswith('::<&&str>')):
         pat = deref(a[1])
         if isinstance(pat, Str) and pat.concrete() and len(pat.bytes()) == 1 and pat.bytes()[0] < 128:
